@@ -294,6 +294,9 @@ func runC29(p *core.Prog, r *core.Report) {
 	core.CheckSuccess(p, r5, core.SuccessRule{Fn: objSrv + ".handleRequestMetaHeader", ResultIdx: -1, MinReturns: 1,
 		Guards: []core.Guard{core.G("_handleRequestMetaHeader", core.ErrNil, objSrv+"._handleRequestMetaHeader")}})
 	// R6: the token validation the handlers rely on re-checks the V2 lifetime on every request
+	r7 := r.Rule("C29.R7", "the signature gate at every handler's entry can be skipped only for a request WITHOUT a verification header (TTL 1, authenticated peer): a header that is present always gets verified, because the access check behind it takes the requester's identity from that header (shared with C33.R1)", 2)
+	signatureExemptionRule(p, r, r7)
+	r.Explain += " (R7, shared with C33.R1) the gate itself: requestNeedsSignature answers 'no' only for a request without a verification header, with a meta header, TTL 1 and an authenticated peer — a header that is present is always verified, since the access check takes the requester's key from it."
 	r6 := r.Rule("C29.R6", "the V2 session check behind handleRequestMetaHeader returns nil only after the per-request lifetime and verb checks, and caches nothing request- or time-dependent (shared with C30.R1/R6)", 9)
 	sessionV2PerRequestRule(p, r, r6)
 	if n := sessionCacheOnMissPurity(p, r6, p.FuncsIn("pkg/services/object/acl/v2")); n < 2 {
